@@ -399,3 +399,196 @@ def roundtrip_ok(parsed):
     while p.peek()[0] != "eof":
         again.append(p.stmt())
     return again == body
+
+
+# ================================================================ stage 2: several functions, calls, return
+# (added for coq/Model/C01_S2_JsSem.v; nothing above is changed)
+KEYWORDS = {"if", "while", "else", "break", "continue", "return", "var", "true", "false", "console", "function"}
+
+
+def is_fname(v):
+    return not v.startswith("$") and v not in KEYWORDS
+
+
+class P2(P):
+    """statement parser that additionally accepts `return;` `return e;` `f(args);` `x = f(args);`.
+    Raw result: stage-1 tuples plus ("ret", e|None) and ("call", dst|None, fname, [args]) at statement positions."""
+
+    def primary(self):
+        k, v = self.peek()
+        if k == "id" and is_fname(v) and self.isop("(", 1):
+            raise ParseError("nested call outside the subset (%s)" % v)
+        return P.primary(self)
+
+    def call_args(self):
+        self.expect("(")
+        args = []
+        if not self.isop(")"):
+            args.append(self.assign())
+            while self.isop(","):
+                self.next()
+                args.append(self.assign())
+        self.expect(")")
+        self.expect(";")
+        return args
+
+    def stmt(self):
+        k, v = self.peek()
+        if k == "id" and v == "return":
+            self.next()
+            if self.isop(";"):
+                self.next()
+                return ("ret", None)
+            e = self.expr()
+            self.expect(";")
+            return ("ret", e)
+        if k == "id" and is_fname(v) and self.isop("(", 1):
+            self.next()
+            return ("call", None, v, self.call_args())
+        if k == "id" and is_fname(v) and self.isop("=", 1) and self.peek(2)[0] == "id" and is_fname(self.peek(2)[1]) and self.isop("(", 3):
+            self.next(); self.next()
+            f = self.next()[1]
+            return ("call", split_name(v), f, self.call_args())
+        return P.stmt(self)
+
+
+def raw_has_cr(s):
+    k = s[0]
+    if k in ("ret", "call"):
+        return True
+    if k == "if":
+        if any(raw_has_cr(x) for x in s[2]):
+            return True
+        e = s[3]
+        if e[0] == "else":
+            return any(raw_has_cr(x) for x in e[1])
+        if e[0] == "elif":
+            return raw_has_cr(e[1])
+        return False
+    if k == "while":
+        return any(raw_has_cr(x) for x in s[2])
+    return False
+
+
+def classify2(s):
+    """raw statement -> stage-2 statement: ("base", s1) ("call", ..) ("ret", ..) ("if2", c, [..], None|[..]) ("while2", [..])"""
+    k = s[0]
+    if k in ("ret", "call"):
+        return s
+    if not raw_has_cr(s):
+        return ("base", s)
+    if k == "if":
+        e = s[3]
+        if e[0] == "elif":
+            raise ParseError("else-if chain containing a call or return is outside the subset")
+        return ("if2", s[1], [classify2(x) for x in s[2]], None if e[0] == "noelse" else [classify2(x) for x in e[1]])
+    if k == "while":
+        if s[1] is not None:
+            raise ParseError("labelled loop containing a call or return is outside the subset")
+        return ("while2", [classify2(x) for x in s[2]])
+    raise ParseError("classify2: " + repr(s)[:80])
+
+
+def func2_match(js, fname):
+    ms = list(re.finditer(r"^(\t*)%s = function %s(?:\$\d+)?\(([^()]*)\) \{\n" % (re.escape(fname), re.escape(fname)), js, re.M))
+    if len(ms) != 1:
+        raise ParseError("expected exactly one `%s = function %s(..)`; found %d" % (fname, fname, len(ms)))
+    m = ms[0]
+    end = js.find("\n" + m.group(1) + "};\n", m.end() - 1)
+    if end < 0:
+        raise ParseError("end of %s not found" % fname)
+    return m, js[m.end():end + 1]
+
+
+def func2_text(js, fname):
+    m, body = func2_match(js, fname)
+    return m.group(0).lstrip("\t") + body
+
+
+def parse_func2(js, fname):
+    """returns (params, vars, body2)"""
+    m, text = func2_match(js, fname)
+    ps = m.group(2).strip()
+    params = []
+    if ps:
+        for x in ps.split(","):
+            x = x.strip()
+            if not re.match(r"^[A-Za-z_$][A-Za-z0-9_$]*$", x):
+                raise ParseError("parameter %r is outside the subset" % x)
+            params.append(split_name(x))
+    p = P2(tokenize(text))
+    vars_ = []
+    if p.peek() == ("id", "var"):
+        p.next()
+        while True:
+            k, v = p.next()
+            if k != "id":
+                raise ParseError("identifier expected in var list")
+            vars_.append(split_name(v))
+            if p.isop(","):
+                p.next()
+                continue
+            p.expect(";")
+            break
+    body = []
+    while p.peek()[0] != "eof":
+        body.append(classify2(p.stmt()))
+    return params, vars_, body
+
+
+def cq_stmt2(s):
+    k = s[0]
+    if k == "base":
+        return "(J2Base %s)" % cq_stmt(s[1])
+    if k == "call":
+        return "(J2Call %s \"%s\"%%string %s)" % ("None" if s[1] is None else "(Some %s)" % cq_name(s[1]), s[2], cq_list([cq_expr(a) for a in s[3]]))
+    if k == "ret":
+        return "(J2Return None)" if s[1] is None else "(J2Return (Some %s))" % cq_expr(s[1])
+    if k == "if2":
+        return "(J2If %s %s %s)" % (cq_expr(s[1]), cq_list([cq_stmt2(x) for x in s[2]]),
+                                    "None" if s[3] is None else "(Some %s)" % cq_list([cq_stmt2(x) for x in s[3]]))
+    if k == "while2":
+        return "(J2While %s)" % cq_list([cq_stmt2(x) for x in s[1]])
+    raise ParseError("cq_stmt2: " + repr(s)[:80])
+
+
+def cq_jfdef(parsed):
+    params, vars_, body = parsed
+    return "{| jf_params := %s; jf_vars := %s; jf_body := %s |}" % (
+        cq_list([cq_name(v) for v in params]), cq_list([cq_name(v) for v in vars_]), cq_list([cq_stmt2(s) for s in body]))
+
+
+def to_coq2(funcs, main):
+    """funcs: [(fname, (params, vars, body2))] in the order of the program's function list"""
+    return "{| jp2_funcs := %s; jp2_main := \"%s\"%%string |}" % (
+        cq_list(['("%s"%%string, %s)' % (f, cq_jfdef(p)) for f, p in funcs]), main)
+
+
+def js_stmt2(s):
+    k = s[0]
+    if k == "base":
+        return js_stmt(s[1])
+    if k == "call":
+        c = "%s(%s);" % (s[2], ", ".join(js_expr(a) for a in s[3]))
+        return c if s[1] is None else "%s = %s" % (js_expr(("var", s[1])), c)
+    if k == "ret":
+        return "return;" if s[1] is None else "return %s;" % js_expr(s[1])
+    if k == "if2":
+        r = "if (%s) { %s }" % (js_expr(s[1]), " ".join(js_stmt2(x) for x in s[2]))
+        if s[3] is not None:
+            r += " else { %s }" % " ".join(js_stmt2(x) for x in s[3])
+        return r
+    if k == "while2":
+        return "while (true) { %s }" % " ".join(js_stmt2(x) for x in s[1])
+    raise ParseError("js_stmt2: " + repr(s)[:80])
+
+
+def roundtrip2_ok(parsed):
+    """print -> parse -> same AST, for the stage-2 forms"""
+    params, vars_, body = parsed
+    text = " ".join(js_stmt2(s) for s in body)
+    p = P2(tokenize(text))
+    again = []
+    while p.peek()[0] != "eof":
+        again.append(classify2(p.stmt()))
+    return again == body
